@@ -1,6 +1,7 @@
 package c14
 
 import (
+	"fmt"
 	"verifharness/vt"
 )
 
@@ -534,14 +535,14 @@ func (g *gen) stNamedFuncValue(t *Node) *Node {
 		}
 		ft += ") int"
 		sn := ""
-		for _, sd := range g.pr.Structs {
-			if len(sd.Fields) == 2 && sd.Fields[1].Name == "f" && sd.Fields[1].Type == ft {
+		for _, sd := range g.pr.FuncStructs {
+			if sd.Fields[1].Type == ft {
 				sn = sd.Name
 			}
 		}
 		if sn == "" {
-			sn = fmt.Sprintf("TF%d", len(g.pr.Structs))
-			g.pr.Structs = append(g.pr.Structs, StructDef{Name: sn, Fields: []Field{{Name: "n", Type: "int"}, {Name: "f", Type: ft}}})
+			sn = fmt.Sprintf("TF%d", len(g.pr.FuncStructs))
+			g.pr.FuncStructs = append(g.pr.FuncStructs, StructDef{Name: sn, Fields: []Field{{Name: "n", Type: "int"}, {Name: "f", Type: ft}}})
 		}
 		g.mark("func-field-call")
 		w := g.newName(false)
